@@ -21,7 +21,7 @@ from vf.props.c02 import Bad
 PROPERTY = "C03"
 LEVEL = "model_checking"
 ASSUMPTIONS = ["custom scalar Tag may serialise to any JSON value (its own implementation decides)"]
-BUDGET_S = {"quick": 120, "thorough": 1800}
+BUDGET_S = {"quick": 600, "thorough": 1800}
 
 INT_MIN, INT_MAX = -(2 ** 31), 2 ** 31 - 1
 
